@@ -74,6 +74,18 @@ pub fn attached_to_hub(op: &Op) -> u128 {
     }
 }
 
+/// the hub names the system's registry and the registry's stored configuration names the hub (what
+/// a removal that moves "the hub's stake" depends on; a registry still pointing at a deployment
+/// placeholder, or re-pointed by its owner, is outside E3)
+pub fn reg_wired(c: &Chain) -> bool {
+    let w = c.hub_wiring();
+    let back = c.stores.get(&REG).and_then(|st| basset_sei_validators_registry::registry::CONFIG.load(st).ok()).and_then(|k| {
+        use cosmwasm_std::Api;
+        cosmwasm_std::testing::MockApi::default().addr_humanize(&k.hub_contract).ok()
+    }).map(|a| id_of(a.as_str()));
+    w[1] == Some(REG) && back == Some(HUB)
+}
+
 /// the hub names the two token contracts of the system (whose burns call it back)
 pub fn hub_wired_to_tokens(c: &Chain) -> bool {
     let w = c.hub_wiring();
@@ -1334,7 +1346,7 @@ pub fn check_step(cx: &StepCtx) -> Vec<Violation> {
     }
 
     // ---------------------------------------------------------------- C13: the follow-up redelegation of stranded stake
-    if kind == "reg.redelegations" && ok {
+    if kind == "reg.redelegations" && ok && reg_wired(cx.chain_pre) {
         if let Op::Tx { call: Call::Reg(RegMsg::Redelegations(val)), .. } = op {
             let could = !cx.chain_pre.no_redelegate.contains(val);
             if could && *post.deleg.get(val).unwrap_or(&0) != 0 {
@@ -1355,7 +1367,7 @@ pub fn check_step(cx: &StepCtx) -> Vec<Violation> {
     }
 
     // ---------------------------------------------------------------- C13: validator removal
-    if kind == "reg.remove" && ok {
+    if kind == "reg.remove" && ok && reg_wired(cx.chain_pre) {
         if let Op::Tx { call: Call::Reg(RegMsg::Remove(val)), .. } = op {
             if post.reg_vals.contains(val) {
                 out.push(v("C13", "still-registered", format!("{} still registered after removal", val)));
